@@ -124,7 +124,7 @@ func genFan(r *Rand, kind int, family string) FanInput {
 	oks := make([]bool, n)
 	for i := range oks {
 		switch family {
-		case "all-at-once":
+		case "all-at-once", "late-all-ok":
 			oks[i] = true
 		case "all-fail":
 			oks[i] = false
@@ -137,7 +137,7 @@ func genFan(r *Rand, kind int, family string) FanInput {
 	}
 	timeoutAt := -1 // position in the order before which the context ends
 	switch family {
-	case "timeout-first":
+	case "timeout-first", "late-all-ok":
 		timeoutAt = 0
 	case "timeout-mid", "silent":
 		timeoutAt = r.Range(0, n)
@@ -490,7 +490,7 @@ func TestC20(t *testing.T) {
 
 	if n > 0 {
 		// fan-out: every function under test in every family
-		families := []string{"all-at-once", "mixed", "timeout-first", "timeout-mid", "silent", "all-fail", "single", "random"}
+		families := []string{"all-at-once", "mixed", "timeout-first", "late-all-ok", "timeout-mid", "silent", "all-fail", "single", "random"}
 		nFan := n * 2 / 3
 		for i := 0; i < nFan; i++ {
 			r := rng.Fork()
